@@ -97,6 +97,12 @@ type PoolInv struct {
 	Src          string
 }
 
+type LockInv struct {
+	Owner, Field string
+	E            Expr
+	Src          string
+}
+
 type AxiomDecl struct {
 	Name string
 	E    Expr
@@ -112,6 +118,7 @@ type SpecSet struct {
 	Guards  []GuardDecl
 	Axioms  []AxiomDecl
 	Pools   []PoolInv
+	LockInvs []LockInv
 	Consts  map[string]string // const-global name -> mode
 	Errors  []string
 }
@@ -496,6 +503,20 @@ func (ss *SpecSet) LoadSpecFile(path, pkgPath string, assumed bool) error {
 				g.Mode = "guarded"
 			}
 			ss.Guards = append(ss.Guards, g)
+		case "lockinv":
+			// lockinv Owner.field :: expr over x (the owner object): must hold whenever the lock is released
+			head, body, ok := strings.Cut(rest, "::")
+			o, f, ok2 := strings.Cut(strings.TrimSpace(head), ".")
+			if !ok || !ok2 {
+				fail(i, "bad lockinv")
+				continue
+			}
+			e, err := ParseExpr(strings.TrimSpace(body))
+			if err != nil {
+				fail(i, "%v", err)
+				continue
+			}
+			ss.LockInvs = append(ss.LockInvs, LockInv{Owner: o, Field: f, E: e, Src: strings.TrimSpace(body)})
 		case "poolinv":
 			// poolinv Owner.field item *T :: expr   |   poolinv globalPool item *T :: expr
 			head, body, ok := strings.Cut(rest, "::")
